@@ -453,9 +453,19 @@ def c02_5(ctx):
             par = pm.get(id(par))
         tgt = par.targets[0].id if par is not None and isinstance(par.targets[0], ast.Name) else None
         inner = [l for l in walk_no_nested(loops[0]) if isinstance(l, ast.For) and l is not loops[0] and unparse(l.iter) == tgt]
-        ok = len(inner) == 1 and len(inner[0].body) == 1 and unparse(inner[0].body[0]) == f'self._append_byte({unparse(inner[0].target)})'
+        ok = len(inner) == 1 and len(inner[0].body) == 1 and unparse(inner[0].body[0]) in (f'self._append_byte({unparse(inner[0].target)})',
+                                                                                              f'self._bytes.append({unparse(inner[0].target)})')
+        # ... or all of them at once
+        whole = [n for n in walk_no_nested(loops[0]) if isinstance(n, (ast.Expr, ast.AugAssign))
+                 and unparse(n) in (f'self._bytes.extend({tgt})', f'self._bytes += {tgt}')]
+        gg = ctx.cfg(gb)
+        if not inner and len(whole) == 1 and par is not None:
+            # reached whenever the conversion succeeded: every way from the conversion back to the loop header passes it
+            hdr = gg.loop_facts(gg.node_of(whole[0]))[-1][1]
+            ok = gg.all_paths_through(gg.node_of(par), hdr, {gg.node_of(whole[0])} | {n.id for n in gg.nodes if n.kind == 'stmt' and n.stmt is not None
+                                                                                      and 'sys.exit' in unparse(n.stmt)})
         ctx.check(ok, 'size:data:all-bytes-appended', gb.site(inner[0]) if inner else gb.site(),
-                  'every byte of the converted value is appended', unparse(inner[0]) if inner else 'no inner loop over the converted bytes')
+                  'every byte of the converted value is appended', unparse(inner[0]) if inner else '; '.join(unparse(w) for w in whole) or 'no inner loop over the converted bytes')
     # InstructionLine
     il = ctx.repo.cls('bespokeasm.assembler.line_object.instruction_line.InstructionLine')
     rets = returns(il.methods['byte_size'])
